@@ -212,8 +212,9 @@ fn apply(m: Mut, spec: &Spec, w: &mut World) -> bool {
         Mut::DropRedeemer => plutus && drop_wit_key(w, &[5]),
         Mut::AlterAuxDataKeepHash => {
             let Some(a) = &mut w.f.aux else { return false };
-            let n = a.len();
-            a[n - 1] ^= 0x01; // last byte of the message text
+            // one letter of the message text ("pv-<n>"), whatever the outer form of the auxiliary data
+            let Some(at) = a.windows(3).position(|w| w == b"pv-") else { return false };
+            a[at + 1] ^= 0x01;
             let Some(v) = TxView::parse(&w.tx) else { return false };
             let (b, wi) = (v.body().span(&w.tx).to_vec(), v.wits().span(&w.tx).to_vec());
             w.tx = view::assemble(&b, &wi, true, w.f.aux.as_deref());
